@@ -206,11 +206,18 @@ pub fn gen_sched(rng: &mut Rng, lazy: bool) -> SchedGen {
     // (6, lazy parsers only: a LATE feature holding a serial and a concurrent scenario arrives while a delayed retry of an
     //  earlier feature is still waiting for its deadline and other scenarios keep finishing — the waiting retry then
     //  sits BEHIND freshly inserted entries in its queue)
-    let focus = if lazy && rng.chance(1, 5) { 6 } else { rng.below(6) }; // 0,1 = none, 2 = delayed retries, 3 = serial + delayed retries, 4 = serial, 5 = retries everywhere
-    let p_serial = if focus == 3 || focus == 4 { 4 } else if focus == 6 { 0 } else { *rng.pick(&[0usize, 1, 3]) };
+    // (7: every scenario is retried after ITS OWN delay — different deadlines wait in one queue, a later-inserted entry
+    //  can become ready before an earlier one; 8: one batch of more than 64 attempts that all complete within one
+    //  poll, under fail-fast, the first final failure late in the batch and more scenarios still queued; 9, lazy
+    //  parsers only: the runner sits idle through more than a thousand consecutive polls in which the parser answers
+    //  Pending, then the parser delivers its last feature and its end in one poll)
+    let focus = if lazy && rng.chance(1, 5) { 6 } else if lazy && rng.chance(1, 40) { 9 } else if rng.chance(1, 10) { 7 }
+        else if rng.chance(1, 40) { 8 } else { rng.below(6) }; // 0,1 = none, 2 = delayed retries, 3 = serial + delayed retries, 4 = serial, 5 = retries everywhere
+    let p_serial = if focus == 3 || focus == 4 { 4 } else if focus == 6 || focus == 8 { 0 } else { *rng.pick(&[0usize, 1, 3]) };
     let delay_ms = if focus == 6 { *rng.pick(&[40u64, 60, 90]) } else if focus == 2 || focus == 3 { *rng.pick(&[2u64, 5, 9]) } else { *rng.pick(&[0u64, 0, 0, 3, 8]) };
-    let with_delay = focus == 2 || focus == 3 || rng.chance(1, 4);
-    if focus == 2 || focus == 3 || focus == 5 {
+    let with_delay = focus == 2 || focus == 3 || focus == 7 || rng.chance(1, 4);
+    if focus == 8 { big_batch(&mut g, rng); }
+    if focus == 2 || focus == 3 || focus == 5 || focus == 7 {
         // every scenario has a retry budget and fails often
         for f in &mut g.feats {
             for s in f.scens.iter_mut().chain(f.rules.iter_mut().flat_map(|r| r.scens.iter_mut())) {
@@ -228,7 +235,8 @@ pub fn gen_sched(rng: &mut Rng, lazy: bool) -> SchedGen {
             if rng.chance(p_serial, 8) { s.tags.push(serial_tag.to_owned()); }
             if with_delay {
                 for t in &mut s.tags {
-                    if t.starts_with("retry(") && (focus == 2 || focus == 3 || rng.chance(1, 2)) { *t = format!("{t}.after({delay_ms}ms)"); }
+                    if t.starts_with("retry(") && focus == 7 { *t = format!("{t}.after({}ms)", *rng.pick(&[2u64, 9, 21, 38])); }
+                    else if t.starts_with("retry(") && (focus == 2 || focus == 3 || rng.chance(1, 2)) { *t = format!("{t}.after({delay_ms}ms)"); }
                 }
             }
         };
@@ -263,6 +271,23 @@ pub fn gen_sched(rng: &mut Rng, lazy: bool) -> SchedGen {
     g.cfg.builder_conc = match rng.below(5) { 0 => None, 1 => Some(None), _ => Some(Some(rng.range(1, 3))) };
     g.cfg.cli_conc = rng.chance(1, 4).then(|| rng.range(1, 3));
     match rng.below(6) { 0 => g.cfg.builder_ff = true, 1 => g.cfg.cli_ff = true, _ => {} }
+    if focus == 7 {
+        // room for several attempts at once, time passing while gates open (so that deadlines expire mid-run)
+        g.cfg.builder_conc = Some(Some(rng.range(2, 4)));
+        g.cfg.cli_conc = None;
+        g.cfg.gate_delay_us = *rng.pick(&[800u64, 2500, 6000]);
+    }
+    if focus == 8 {
+        let n = g.feats[0].scens.len();
+        // more than 64 slots, fewer than scenarios: something is still queued when the batch completes
+        match rng.below(3) {
+            0 => { g.cfg.builder_conc = Some(Some(rng.range(66, n - 3))); g.cfg.cli_conc = None; }
+            1 => { g.cfg.builder_conc = Some(Some(2)); g.cfg.cli_conc = Some(rng.range(66, n - 3)); }
+            _ => { g.cfg.builder_conc = None; g.cfg.cli_conc = Some(rng.range(66, n - 3)); }
+        }
+        g.cfg.builder_ff = rng.chance(1, 2);
+        g.cfg.cli_ff = !g.cfg.builder_ff || rng.chance(1, 3);
+    }
     if rng.chance(1, 6) { g.cfg.builder_retries = Some(rng.range(1, 2)); }
     if rng.chance(1, 8) { g.cfg.cli_retries = Some(rng.range(1, 2)); }
     if rng.chance(1, 10) { g.cfg.cli_after = Some(Duration::from_millis(delay_ms)); }
@@ -294,8 +319,42 @@ pub fn gen_sched(rng: &mut Rng, lazy: bool) -> SchedGen {
         parser.push((if i == 0 && (slow || focus == 6) { 0 } else if focus == 6 { rng.range(3, 12) } else { pend(rng) }, Ok(i)));
     }
     if rng.chance(1, 8) { parser.push((pend(rng), Err(nerr))); }
-    let end_pendings = pend(rng);
+    let mut end_pendings = pend(rng);
+    if focus == 9 {
+        // the LAST feature arrives after more than a thousand fruitless polls, together with the end of the stream
+        if let Some(last) = parser.iter_mut().rev().find(|(_, it)| it.is_ok()) { last.0 = rng.range(1030, 1100); }
+        while parser.last().is_some_and(|(_, it)| it.is_err()) { parser.pop(); }
+        end_pendings = 0;
+        // everything delivered before completes at once, so the runner is idle during the whole wait
+        for (_, sc) in g.scripts.iter_mut() { sc.gates = 0; }
+        for f in &mut g.feats {
+            for sc in f.scens.iter_mut().chain(f.rules.iter_mut().flat_map(|r| r.scens.iter_mut())) {
+                sc.tags.retain(|t| !t.contains("after("));
+            }
+        }
+        g.cfg.cli_after = None;
+    }
     SchedGen { g, parser, end_pendings }
+}
+
+/// focus mode 8: ONE feature of 72–90 one-step scenarios that complete without waiting for a gate; all pass but one
+/// late in the dispatch order (position > 64), which fails finally
+fn big_batch(g: &mut GenRun, rng: &mut Rng) {
+    let n = rng.range(72, 90);
+    let bad = rng.range(65, n - 4);
+    let base = 1000usize;
+    let mut scens = vec![];
+    g.scripts.clear();
+    g.info.clear();
+    for i in 0..n {
+        let id = base + 1 + i;
+        scens.push(RScen { id, tags: vec![], steps: vec![Kind::Run] });
+        g.info.insert(id, (vec![], vec![Kind::Run], None));
+        let mut sp = HashMap::new();
+        if i == bad { sp.insert((false, 0usize), Pan::Str(3)); }
+        g.scripts.insert((format!("s-{id}"), 0), AttScript { init: Init::Ok, before: None, after: None, step_panics: sp, gates: 0 });
+    }
+    g.feats = vec![RFeat { id: base, tags: vec![], bg: vec![], scens, rules: vec![] }];
 }
 
 pub fn run_sched(sg: &SchedGen, rng: &mut Rng) -> (RunOut, String) {
